@@ -120,6 +120,8 @@ class ZygotePool:
     def __init__(self, hashseeds: list[int], replicas: int, repo_root: str, max_inflight: int = 8):
         self.hashseeds = list(hashseeds)
         self.repo_root = repo_root
+        self.max_inflight = max_inflight
+        self.lock = threading.Lock()
         self.by_seed: dict[int, list[Zygote]] = {h: [] for h in hashseeds}
         self.rr: dict[int, itertools.count] = {h: itertools.count() for h in hashseeds}
         self.all: list[Zygote] = []
@@ -146,6 +148,13 @@ class ZygotePool:
             self.by_seed[z.hashseed].append(z)
 
     def call(self, hashseed: int, job: dict) -> dict:
+        with self.lock:
+            if hashseed not in self.by_seed:
+                # a replay file may name a hash seed outside today's pool: start it on demand
+                z = Zygote(hashseed, self.repo_root, self.max_inflight)
+                self.all.append(z)
+                self.by_seed[hashseed] = [z]
+                self.rr[hashseed] = itertools.count()
         zs = self.by_seed[hashseed]
         z = zs[next(self.rr[hashseed]) % len(zs)]
         if z.dead:
